@@ -11,13 +11,59 @@ C08 — executable model of the encryption detectors and of the decisions built 
 
 Third-party parsers enter as parameters: an OLE file is the list of its root entries (name,
 stream bytes | storage), a ZIP is its `infolist()`, a 7z archive its parsed folders, an XML
-document is a tree (or "does not parse"), a PDF is (is_encrypted, result of decrypt('')).
+document is a tree (or "does not parse"), a PDF is (is_encrypted, result of decrypt('')); the test
+`read_pdf` applies to that result is translated from the source into a `PdfTest` expression.
 Bytes are `Nat`s.  Constants come from `S2T.Gen.Encryption.consts` (generated from the source).
 Core Lean only.
 -/
 namespace S2T.Enc
 
 abbrev Str := List Char
+
+/-- the test `read_pdf` applies to the value of `reader.decrypt(<password>)` before it raises the
+    encrypted error, as an expression over that one value (translated from the source by
+    tools/gen/encryption.py: `==`/`is` ↦ `eq`, `!=`/`is not` ↦ `ne`, `<`,`<=`,`>`,`>=` ↦ `lt`/`ge`,
+    `in (…)` ↦ `mem`, bare name ↦ `truthy`, `not`/`and`/`or`; names and attributes are resolved to
+    their run-time integer value).  pypdf returns `PasswordType` members (an IntEnum), for which
+    identity and equality coincide. -/
+inductive PdfTest where
+  | const (b : Bool)
+  | eq (c : Nat)
+  | ne (c : Nat)
+  | lt (c : Nat)
+  | ge (c : Nat)
+  | mem (l : List Nat)
+  | truthy
+  | not (t : PdfTest)
+  | and (a b : PdfTest)
+  | or (a b : PdfTest)
+
+/-- value of the test for decrypt result `v` -/
+def PdfTest.eval : PdfTest → Nat → Bool
+  | .const b, _ => b
+  | .eq c, v => v == c
+  | .ne c, v => v != c
+  | .lt c, v => decide (v < c)
+  | .ge c, v => decide (c ≤ v)
+  | .mem l, v => l.contains v
+  | .truthy, v => v != 0
+  | .not t, v => !(t.eval v)
+  | .and a b, v => a.eval v && b.eval v
+  | .or a b, v => a.eval v || b.eval v
+
+/-- strict upper bound of the constants a test mentions (≥ 1): from there on the test is constant
+    (`PdfTest.eval_stable`), so deciding it on `0 … bound` decides it for every result -/
+def PdfTest.bound : PdfTest → Nat
+  | .const _ => 1
+  | .eq c => c + 1
+  | .ne c => c + 1
+  | .lt c => c + 1
+  | .ge c => c + 1
+  | .mem l => l.foldr max 0 + 1
+  | .truthy => 1
+  | .not t => t.bound
+  | .and a b => max a.bound b.bound
+  | .or a b => max a.bound b.bound
 
 structure Consts where
   oleMarkers : List Str
@@ -46,8 +92,13 @@ structure Consts where
   epubRightsPath : Str
   epubEncTag : Str
   pdfPassword : Str
-  pdfNotDecrypted : Nat
-  pdfOnException : Nat
+  /-- the test under which `read_pdf` raises the encrypted error, over the value of `decrypt(pdfPassword)` -/
+  pdfTest : PdfTest
+  /-- value of that test (evaluated on the real objects by the translator) for the value the
+      `except` clause around the `decrypt` call assigns -/
+  pdfExcRejects : Bool
+  /-- pypdf's `PasswordType` members at run time: every outcome `decrypt` can report -/
+  pdfPasswordTypes : List (String × Nat)
 
 /-! ## OLE containers (olefile as a parameter) -/
 
@@ -303,6 +354,9 @@ def isEpubEncrypted (C : Consts) (i : EpubInput) : Bool :=
 
 /-- the decision in `read_pdf`: `decrypt` = result of `reader.decrypt(<pdfPassword>)`, `none` = it raised -/
 def pdfRejects (C : Consts) (isEncrypted : Bool) (decrypt : Option Nat) : Bool :=
-  isEncrypted && ((decrypt.getD C.pdfOnException) == C.pdfNotDecrypted)
+  isEncrypted &&
+    (match decrypt with
+     | none => C.pdfExcRejects
+     | some v => C.pdfTest.eval v)
 
 end S2T.Enc
